@@ -33,8 +33,9 @@ GridLen  == [g \in Grids |-> IF g = "C" THEN 2 ELSE 1]
 \* "O" is a schedule with ONE element (a length no time grid of the alphabet has: always rejected, never broadcast).
 \* With Setters: "setpf" assigns the alternative scalar to the attribute, "KA" is the schedule constant at that alternative value.
 WithSet  == Setters /\ Kind = "single"
-Scheds   == IF Kind = "single" THEN {"S", "K", "O"} \cup (IF WithSet THEN {"KA"} ELSE {}) ELSE {}
-SchedLen == [s \in {"S", "K", "O", "KA"} |-> IF s = "O" THEN 3 ELSE 1]
+\* "E" (with Setters) is the empty schedule: length 0, which no time grid has either.
+Scheds   == IF Kind = "single" THEN {"S", "K", "O"} \cup (IF WithSet THEN {"KA", "E"} ELSE {}) ELSE {}
+SchedLen == [s \in {"S", "K", "O", "KA", "E"} |-> IF s = "O" THEN 3 ELSE IF s = "E" THEN 0 ELSE 1]
 Modes    == {"flux", "density"}
 
 NoSim   == [grid |-> "none", sched |-> "none"]
